@@ -222,7 +222,7 @@ func (e *env) quiescent(where string) {
 			live = append(live, b.Block)
 		}
 		awaiting = snap.BlocksToRelease
-		if len(awaiting) > 0 && e.s.Gate.Waiting("state.write") == 0 && s.State.FailNext == 0 {
+		if len(awaiting) > 0 && e.s.Gate.Waiting("state.write") == 0 && s.State.PendingFailures() == 0 {
 			e.c.Violation("persistentBlockList:released-blocks-not-written-back", "%s: at a quiescent point (syncers parked, no timer pending) %d popped blocks still await a state write", where, len(awaiting))
 		}
 	} else {
@@ -348,15 +348,13 @@ func (e *env) run() {
 				e.sigParts["devwrite-fail:put"] = true
 			case 4:
 				if cfg.Persistent {
-					s.State.FailErr = status.Error(codes.Internal, "injected state write failure")
-					s.State.FailNext = r.Range(1, 3)
+					s.State.SetFail(r.Range(1, 3), status.Error(codes.Internal, "injected state write failure"))
 					e.w.Count("faults_statewrite", 1)
 					e.sigParts["statewrite-fail"] = true
 				}
 			case 5:
 				if cfg.Persistent {
-					s.DataSync.FailErr = status.Error(codes.Internal, "injected sync failure")
-					s.DataSync.FailNext = r.Range(1, 2)
+					s.DataSync.SetFail(r.Range(1, 2), status.Error(codes.Internal, "injected sync failure"))
 					e.w.Count("faults_datasync", 1)
 					e.sigParts["datasync-fail"] = true
 				}
